@@ -59,6 +59,9 @@ type rCase struct {
 	// values handlers panic with)
 	RecH bool `json:"rech,omitempty"`
 	Fmt  bool `json:"fmt,omitempty"`
+	// Log: router world — recovery logs (recovery.WithLogger, a handler that formats every record and
+	// throws it away) instead of recovery.WithoutLogging
+	Log bool `json:"log,omitempty"`
 }
 
 // recoveryHandler is a custom response handler for recovery.WithHandler: the same document as the
@@ -96,6 +99,9 @@ func buildR(c rCase) (*cx.World, error) {
 		script = append(script, cx.Op{K: "AR", OK: "a", Seg: 2, H: okHid})
 	} else {
 		ropts := []recovery.Option{recovery.WithoutLogging()}
+		if c.Log {
+			ropts = []recovery.Option{recovery.WithLogger(slog.New(slog.NewTextHandler(io.Discard, nil)))}
+		}
 		if c.RecH {
 			ropts = append(ropts, recovery.WithHandler(recoveryHandler))
 		}
@@ -177,6 +183,9 @@ func emitR(id string, c rCase, st *hx.Stats) string {
 		if c.RecH && !c.App {
 			st.Count("R_custom_recovery_handler")
 		}
+		if c.Log && !c.App {
+			st.Count("R_router_recovery_logging_on")
+		}
 		if c.Fmt && c.App {
 			st.Count("R_app_error_formatter_with_status_resolver")
 		}
@@ -240,7 +249,7 @@ func p(v int) cx.Act { return cx.Act{K: "P", V: v} }
 
 // panicSite draws one of the panic sites of the quantifier.
 func panicSite(r *hx.Rand, st *hx.Stats) []cx.Act {
-	v := r.Intn(cx.NPanicValues + 1) // the last one is cx.WriterPanic
+	v := hx.Pick(r, cx.RPanicValues) // incl. cx.WriterPanic and cx.TypedNilPanic
 	name, acts := "", []cx.Act(nil)
 	switch r.Intn(8) {
 	case 0:
@@ -272,6 +281,7 @@ func genR(r *hx.Rand, st *hx.Stats) rCase {
 	if !c.App {
 		c.Wrap = r.Chance(1, 4)
 		c.RecH = r.Chance(1, 3)
+		c.Log = r.Chance(1, 2)
 	} else {
 		c.Obs = r.Chance(1, 2)
 		c.Fmt = r.Chance(1, 3)
@@ -324,6 +334,14 @@ type tCase struct {
 	// the main handler, acts W only), the main handler performing Prog, Tail flat handlers behind it
 	Wrap *tWrap     `json:"wrap,omitempty"`
 	Tail [][]string `json:"tail,omitempty"` // W D X aC aE aT sH aR hold P0..P4
+	// configuration the model says is irrelevant:
+	// Fmtf: handlers and the timeout handler render with c.Stringf (after a warm-up request that has used it);
+	// Gate: a slow client — the first body write of the timeout response blocks inside the writer until the
+	// handler lets it go on (instead of the timeout handler waiting before it writes; only with WaitH);
+	// Conc: while recovery handles the panic of this request a second request is in flight on the same router
+	Fmtf bool `json:"fmtf,omitempty"`
+	Gate bool `json:"gate,omitempty"`
+	Conc bool `json:"conc,omitempty"`
 }
 
 type tWrap struct {
@@ -397,6 +415,77 @@ type tState struct {
 	prog       []string
 	waitH      bool
 	hold       time.Duration
+	fmtf, gate bool
+	tIn        atomic.Bool   // the timeout handler has been entered
+	tInWrite   chan struct{} // gate: the timeout response is inside the writer's Write
+	gateOnce   sync.Once
+	conc       bool
+	concOnce   sync.Once
+	bInside    chan struct{} // conc: the second request is inside its handler
+	aDone      chan struct{} // conc: the first request's ServeHTTP has returned
+	bDone      chan struct{}
+	bStatus    int
+	bBody      []int
+	router     *router.Router
+}
+
+// gateWriter is the writer of a connection to a slow client: the first body write of the timeout response
+// takes until the handler goroutine lets it go on; then the bytes are taken over.
+type gateWriter struct {
+	*httptest.ResponseRecorder
+	s *tState
+}
+
+func (w *gateWriter) Write(p []byte) (int, error) {
+	if w.s.tIn.Load() {
+		w.s.gateOnce.Do(func() {
+			close(w.s.tInWrite)
+			select {
+			case <-w.s.hGo:
+			case <-time.After(3 * time.Second):
+				w.s.retTimeout.Store(true)
+			}
+		})
+	}
+	return w.ResponseRecorder.Write(p)
+}
+
+// recoveryLog is the slog handler behind recovery.WithLogger in the T cases: recovery logs every panic it
+// handles ("a panic ... is re-raised to recovery" is observed here, whatever becomes of recovery's response).
+// With conc it also starts a second request on the same router and returns only when that request is inside
+// its handler — it then completes after the first one has been answered.
+type recoveryLog struct{ s *tState }
+
+func (h recoveryLog) Enabled(context.Context, slog.Level) bool { return true }
+func (h recoveryLog) WithAttrs([]slog.Attr) slog.Handler       { return h }
+func (h recoveryLog) WithGroup(string) slog.Handler            { return h }
+func (h recoveryLog) Handle(context.Context, slog.Record) error {
+	s := h.s
+	s.recovered.Store(true)
+	if s.conc {
+		s.concOnce.Do(func() {
+			go func() {
+				defer close(s.bDone)
+				rec := httptest.NewRecorder()
+				func() {
+					defer func() {
+						if p := recover(); p != nil {
+							rec.Code = -1
+						}
+					}()
+					req := httptest.NewRequest(http.MethodGet, "/okb", nil)
+					s.router.ServeHTTP(rec, req.WithContext(context.WithValue(req.Context(), tKey{}, s)))
+				}()
+				s.bStatus, s.bBody = rec.Code, cx.ParseBody(rec.Body.Bytes())
+			}()
+			select {
+			case <-s.bInside:
+			case <-time.After(3 * time.Second):
+				s.retTimeout.Store(true)
+			}
+		})
+	}
+	return nil
 }
 
 type tKey struct{}
@@ -432,7 +521,11 @@ func tRun(c *router.Context, s *tState, acts []string) {
 	for _, act := range acts {
 		switch act {
 		case "W":
-			_ = c.JSON(cx.StatusOf(tHid), map[string]int{"h": tHid})
+			if s.fmtf {
+				_ = c.Stringf(cx.StatusOf(tHid), "{\"h\":%d}", tHid)
+			} else {
+				_ = c.JSON(cx.StatusOf(tHid), map[string]int{"h": tHid})
+			}
 		case "D":
 			s.parent.fire(context.DeadlineExceeded)
 		case "X":
@@ -440,7 +533,11 @@ func tRun(c *router.Context, s *tState, acts []string) {
 		case "aC":
 			<-s.reqCtx.Done()
 		case "aE":
-			<-s.tEntered
+			if s.gate { // the timeout response is formatted and on its way to the slow client
+				<-s.tInWrite
+			} else {
+				<-s.tEntered
+			}
 		case "aT":
 			<-s.tWritten
 		case "sH":
@@ -477,11 +574,16 @@ func panicNow(v int) {
 
 func timeoutHandler(c *router.Context, d time.Duration) {
 	s := c.Request.Context().Value(tKey{}).(*tState)
+	s.tIn.Store(true)
 	close(s.tEntered)
-	if s.waitH {
+	if s.waitH && !s.gate {
 		<-s.hGo
 	}
-	_ = c.JSON(http.StatusRequestTimeout, map[string]any{"error": "Request timeout", "code": "TIMEOUT"})
+	if s.fmtf {
+		_ = c.Stringf(http.StatusRequestTimeout, "{\"error\":%q,\"code\":%q,\"after\":%q}", "Request timeout", "TIMEOUT", d.String())
+	} else {
+		_ = c.JSON(http.StatusRequestTimeout, map[string]any{"error": "Request timeout", "code": "TIMEOUT"})
+	}
 	close(s.tWritten)
 }
 
@@ -510,9 +612,11 @@ type tObs struct {
 
 func runT(c tCase) tObs {
 	s := &tState{tEntered: make(chan struct{}), tWritten: make(chan struct{}), hGo: make(chan struct{}), returned: make(chan struct{}),
-		hExit: make(chan struct{}), prog: c.Prog, waitH: c.WaitH}
+		hExit: make(chan struct{}), prog: c.Prog, waitH: c.WaitH, fmtf: c.Fmtf, gate: c.Gate && c.WaitH && c.Custom, conc: c.Conc,
+		tInWrite: make(chan struct{}), bInside: make(chan struct{}), aDone: make(chan struct{}), bDone: make(chan struct{})}
 	r := router.MustNew()
-	r.Use(recovery.New(recovery.WithLogger(slog.New(flagHandler{&s.recovered}))))
+	s.router = r
+	r.Use(recovery.New(recovery.WithLogger(slog.New(recoveryLog{s}))))
 	for i := 0; i < c.Pre; i++ {
 		r.Use(func(c *router.Context) { c.Next() })
 	}
@@ -535,14 +639,34 @@ func runT(c tCase) tObs {
 	}
 	r.GET("/t", hs...)
 	r.GET("/ok", func(c *router.Context) { _ = c.JSON(cx.StatusOf(okHid), map[string]int{"h": okHid}) })
+	r.GET("/okf", func(c *router.Context) {
+		_ = c.Stringf(cx.StatusOf(okHid), "{\"h\":%d,\"pad\":%q}", okHid, strings.Repeat("y", 160))
+	})
+	r.GET("/okb", func(c *router.Context) { // the second request of conc: answers once the first one is through
+		b := c.Request.Context().Value(tKey{}).(*tState)
+		close(b.bInside)
+		select {
+		case <-b.aDone:
+		case <-time.After(3 * time.Second):
+			b.retTimeout.Store(true)
+		}
+		_ = c.JSON(cx.StatusOf(okHid), map[string]int{"h": okHid})
+	})
 
 	s.hold = 6 * budget
 	if c.Budget == 0 {
 		s.hold = 60 * time.Millisecond
 	}
 	s.parent = &ctlCtx{Context: context.WithValue(context.Background(), tKey{}, s), done: make(chan struct{})}
+	if c.Fmtf { // an earlier request that has rendered with Stringf (pooled contexts keep what they have grown)
+		r.ServeHTTP(httptest.NewRecorder(), httptest.NewRequest(http.MethodGet, "/okf", nil))
+	}
 	req := httptest.NewRequest(http.MethodGet, "/t", nil).WithContext(s.parent)
 	rec := httptest.NewRecorder()
+	var rw http.ResponseWriter = rec
+	if s.gate {
+		rw = &gateWriter{ResponseRecorder: rec, s: s}
+	}
 	o := tObs{Escaped: -1}
 	served := make(chan struct{})
 	go func() {
@@ -552,7 +676,7 @@ func runT(c tCase) tObs {
 				o.Escaped = cx.PanicIndex(p)
 			}
 		}()
-		r.ServeHTTP(rec, req)
+		r.ServeHTTP(rw, req)
 	}()
 	select {
 	case <-served:
@@ -564,6 +688,7 @@ func runT(c tCase) tObs {
 	}
 	o.ReleasedEarly = !s.hFinished.Load()
 	close(s.returned)
+	close(s.aDone)
 	if !s.hStarted.Load() {
 		// a real (small) budget ran out before the handler goroutine was scheduled: Next's
 		// cancellation check skipped the handler - a timing artefact, not an observation
@@ -594,6 +719,17 @@ func runT(c tCase) tObs {
 		r.ServeHTTP(rec2, httptest.NewRequest(http.MethodGet, "/ok", nil))
 	}()
 	o.Follow = rec2.Code
+	if s.conc && s.recovered.Load() {
+		select {
+		case <-s.bDone:
+			if s.bStatus != cx.StatusOf(okHid) || len(s.bBody) != 1 || s.bBody[0] != okHid {
+				// the request that was in flight during the recovery was not served normally
+				o.Follow = 100000 + s.bStatus*10 + len(s.bBody)
+			}
+		case <-time.After(5 * time.Second):
+			o.Discard = "the concurrent request did not finish within 5s"
+		}
+	}
 	return o
 }
 
@@ -663,6 +799,26 @@ func emitT(id string, c tCase, st *hx.Stats) string {
 // waiting is seen as "released early".
 func genT(r *hx.Rand, st *hx.Stats) (c tCase) {
 	c = tCase{Kind: "T", Pre: r.Intn(2)}
+	defer func() {
+		c.Fmtf = r.Chance(1, 3)
+		c.Gate = c.WaitH && c.Custom && hasAct(c.Prog, "sH") && r.Chance(1, 2)
+		for _, a := range c.Prog {
+			if strings.HasPrefix(a, "P") && r.Chance(1, 3) {
+				c.Conc = true
+			}
+		}
+		if st != nil {
+			if c.Fmtf {
+				st.Count("T_rendered_with_Stringf")
+			}
+			if c.Gate {
+				st.Count("T_slow_client_write_gated")
+			}
+			if c.Conc {
+				st.Count("T_second_request_in_flight_during_recovery")
+			}
+		}
+	}()
 	w := func(n int) []string { // 0..n writes
 		var out []string
 		for i := r.Intn(n + 1); i > 0; i-- {
@@ -1016,6 +1172,9 @@ func fixedR() []rCase {
 		{Kind: "R", Check: true, Wire: true, Chain: []cx.Beh{{H: 1, Acts: []cx.Act{p(4)}}, {H: 2, Acts: []cx.Act{p(1)}}}},
 		// panic after the response was started
 		{Kind: "R", Check: true, Global: 1, Chain: []cx.Beh{{H: 1, Acts: a("N")}, {H: 2, Acts: []cx.Act{{K: "W"}, p(3)}}}},
+		// a panic value whose Error method panics itself (typed nil), recovery logging on
+		{Kind: "R", Check: true, Log: true, Chain: []cx.Beh{{H: 1, Acts: []cx.Act{p(cx.TypedNilPanic)}}}},
+		{Kind: "R", Check: true, App: true, Global: 1, Chain: []cx.Beh{{H: 1, Acts: a("N")}, {H: 2, Acts: []cx.Act{{K: "W"}, p(cx.TypedNilPanic)}}}},
 		// through the timeout middleware's goroutine
 		{Kind: "R", Check: true, Wrap: true, Global: 1, Chain: []cx.Beh{{H: 1, Acts: []cx.Act{{K: "N"}, p(0)}}, {H: 2, Acts: []cx.Act{p(4)}}}},
 	}
@@ -1036,6 +1195,11 @@ func fixedT() []tCase {
 		{Kind: "T", Prog: []string{"P1"}},                                                        // re-panic to recovery
 		{Kind: "T", Custom: true, WaitH: true, Prog: []string{"D", "aC", "aE", "W", "sH", "aT"}}, // handler writes first, then the 408 body
 		{Kind: "T", Custom: true, WaitH: true, Prog: []string{"D", "aC", "aE", "P3"}},            // panic while the timeout handler waits
+		// slow client + Stringf: the handler renders while the timeout response is inside the writer
+		{Kind: "T", Custom: true, WaitH: true, Fmtf: true, Gate: true, Prog: []string{"D", "aC", "aE", "W", "sH", "aT"}},
+		// a second request is in flight while recovery handles the panic that followed the timeout response
+		{Kind: "T", Custom: true, Conc: true, Prog: []string{"D", "aC", "aE", "aT", "P0"}},
+		{Kind: "T", Conc: true, Prog: []string{"W", "P1"}},
 	}
 }
 
